@@ -300,6 +300,20 @@ Section Scenario.
         end
     end.
 
+  (* specification of a whole scenario shot: the steps' specified outcomes up to and including
+     the first one that is not sent *)
+  Fixpoint spec_scenario (t : mtable desc) (conf_timeout : Z) (configured : heap) (sts : list (step * vars))
+    : list (outcome msg) :=
+    match sts with
+    | [] => []
+    | (st, v) :: rest =>
+        let o := spec_step t conf_timeout configured st v in
+        match o with
+        | Sent _ => o :: spec_scenario t conf_timeout configured rest
+        | _ => [o]
+        end
+    end.
+
   (* a whole scenario shot of one gun: steps in order, stop at the first step that is not sent
      (Gun.shoot returns the step's error); [vs] gives the variables of each step *)
   Fixpoint shoot_scenario (h : heap) (g : sgun) (scn : gbytes) (sts : list (step * vars))
